@@ -393,8 +393,16 @@ pub fn server_for_game(game: &gamedig::Game) -> Option<ServerFn> {
     use gamedig::protocols::valve::Engine;
     let fam = family_of_game(game)?;
     if let (Protocol::Valve(Engine::Source(Some((appid, _)))), Family::Valve(e)) = (&game.protocol, fam) {
-        let appid = *appid;
-        return Some(Arc::new(move || {
+        return Some(valve_server_with_appid(e, *appid));
+    }
+    Some(server_for(fam))
+}
+
+/// The seed Valve server of engine `e` reporting `appid` (in the 16-bit field when it fits, and in the game id).
+pub fn valve_server_with_appid(e: EngineCfg, appid: u32) -> ServerFn {
+    {
+        {
+        return (Arc::new(move || {
             let mut s = valve_seed(e);
             if appid <= 0xffff {
                 s.info.appid = appid as u16;
@@ -406,8 +414,8 @@ pub fn server_for_game(game: &gamedig::Game) -> Option<ServerFn> {
             let t = valve_seed_transport(e, &s);
             Box::new(rv::ValveServer::new(s, t))
         }));
+        }
     }
-    Some(server_for(fam))
 }
 
 /// The generic definition-driven dispatch, once per entry of GAMES.
